@@ -235,7 +235,8 @@ pub mod rust_log_ref_finder
                                         ));
 
                                         ref_kind = LogRefKind::StructuredPreExisting;
-                                        reference = match span.as_str().parse::<u32>()
+                                        // The value's span includes any blanks up to the delimiter
+                                        reference = match span.as_str().trim().parse::<u32>()
                                         {
                                             Err(_) => None,
                                             Ok(val) => Some(val),
